@@ -370,7 +370,7 @@ pub fn atom_stream(text: &str) -> Vec<Atom> {
                         let prev_tok = items[..i].iter().rev().find_map(|it| tok_text(it)).map(|t| t.1);
                         let matched = matched.filter(|j| {
                             let next_tok = items[*j + 1..].iter().find_map(|it| tok_text(it)).map(|t| t.1);
-                            matches!(prev_tok, Some("(") | Some(",") | Some(";") | Some("/")) && matches!(next_tok, Some(")") | Some(",") | Some(";") | Some(":"))
+                            matches!(prev_tok, Some("(") | Some(",") | Some(";") | Some("/") | Some("=")) && matches!(next_tok, Some(")") | Some(",") | Some(";") | Some(":"))
                         });
                         if let Some(j) = matched {
                             out.extend(between);
